@@ -29,6 +29,14 @@ for k in (1, 2):
         "what_was_run": f"python tools_seeded.py seeded/{pid}-{k} --props {props}  (scratch copy of /repo/src + tests with the patch; pinned suite; demo with/without; ./check <prop> --tier quick against the copy)",
         "checks": res.get("checks"), "caught_by": [c for c, r in (res.get("checks") or {}).items() if r.get("rc") == 1],
     }
+    if os.path.exists(f"{d}/meta.json"):
+        try:
+            prev = json.load(open(f"{d}/meta.json"))
+            for k_ in ("strengthening", "first_result"):
+                if k_ in prev:
+                    meta[k_] = prev[k_]
+        except Exception:
+            pass
     if "error" in res or "patch_error" in res:
         meta["error"] = res.get("error") or res.get("patch_error")
     json.dump(meta, open(f"{d}/meta.json", "w"), indent=1)
